@@ -29,6 +29,11 @@ CLAIMED = {
     level="Every division by the norm of a raw sensor sample is dominated by a zero-norm guard on all paths, every early-return arm returns a unit quaternion, and per-sample code never re-assigns configuration. These are the structural necessary conditions for 'a dropout never yields NaN/non-unit output nor changes later processing'; recovery accuracy is not decided.",
     note="Sensor parameters are the non-attitude parameters of the listed functions; guard idioms as in DESIGN.md A.3.",
     ref="DESIGN.md §2 C13"),
+ "C06": dict(
+    technique="effect/read-set analysis over the resolved call graph from each streaming entry point (NO-DATA-READ with default-arm skipping, CONFIG-NOT-FROM-DATA, ARG-HONOURED), structural PROTOCOL match of every batch loop, alias-based ISOLATION, RNG reachability",
+    level="Batch == streaming follows when both routes execute the same statements on the same state: the check establishes that streaming code reads no batch attribute, that no configuration it reads was chosen from batch data, that every batch loop body is exactly the streaming call on (Q[t-1], samples[t]), that per-call arguments are honoured, that carried state is per instance and that no RNG is reachable. Bit-identity itself is not computed.",
+    note="Call graph resolution through self/MRO/typed locals; one known finding (Madgwick default gain chosen from the presence of mag data).",
+    ref="DESIGN.md §2 C06"),
 }
 
 NOT_YET = "check not built yet in this session (work in progress; see DESIGN.md §2 for the planned static rules)"
